@@ -213,3 +213,17 @@ pub fn map_parser<'a, O2, F: Fn(&'a [u8]) -> IResult<&'a [u8], &'a [u8]>, G: Fn(
                 Err(e) => r == Err::<(&'a [u8], O2), Err<Error<&'a [u8]>>>(e),
             },
 { |i: &'a [u8]| -> IResult<&'a [u8], O2> { unimplemented!() } }
+
+// nom::combinator::map(p, f): run p, apply f to its output; remainder and errors unchanged.  [combinator/mod.rs]
+// ASSUMED here; OBLIGATION of Kani harness shim_map.
+#[verifier::external_body]
+pub fn map<'a, O1, O2, F: Fn(&'a [u8]) -> IResult<&'a [u8], O1>, G: Fn(O1) -> O2>(p: F, f: G) -> (h: impl Fn(&'a [u8]) -> IResult<&'a [u8], O2>)
+    requires forall|i: &'a [u8]| #[trigger] p.requires((i,)), forall|x: O1| #[trigger] f.requires((x,)),
+    ensures
+        forall|i: &'a [u8]| #[trigger] h.requires((i,)),
+        forall|i: &'a [u8], r: IResult<&'a [u8], O2>| #[trigger] h.ensures((i,), r) ==>
+            exists|r1: IResult<&'a [u8], O1>| #[trigger] p.ensures((i,), r1) && match r1 {
+                Ok((rem, o1)) => exists|o2: O2| #[trigger] f.ensures((o1,), o2) && r == Ok::<(&'a [u8], O2), Err<Error<&'a [u8]>>>((rem, o2)),
+                Err(e) => r == Err::<(&'a [u8], O2), Err<Error<&'a [u8]>>>(e),
+            },
+{ |i: &'a [u8]| -> IResult<&'a [u8], O2> { unimplemented!() } }
